@@ -24,7 +24,7 @@ RULE = ('family = one generated pipeline (single- and multi-input stages: map, s
         'successful fetches equals the number of completed function applications in '
         'the event log. Non-trivial = pipeline with at least 3 stages or a fault fired; '
         'distinct = distinct (pipeline, mode, fault plan, schedule seed).')
-PROBES = ['original_iterated_after_wrapper', 'failed_fetch_counted', 'multi_input_stage_wrapped', 'behind_thread_prefetch',
+PROBES = ['counters_read_while_iterator_suspended', 'original_iterated_after_wrapper', 'failed_fetch_counted', 'multi_input_stage_wrapped', 'behind_thread_prefetch',
           'items_stage_inside', 'partial_iteration', 'indexing_through_wrapper']
 BUDGET = {
     'quick': {'families': 8000, 'wall_cap': 420, 'shrink_s': 12},
@@ -149,6 +149,12 @@ def gen_desc(rng):
         kind = rng.choice(['list', 'dict'])
         desc = {'source': {'kind': kind, 'n': n},
                 'stages': [{'op': 'map', 'id': 'u0'}]}
+        if rng.random() < 0.15:
+            # some examples are None / 0 / '' / [] ... (legal examples)
+            desc['stages'].append({'op': 'falsy', 'id': 'uf', 'mod': rng.randrange(2, 4),
+                                   'rem': rng.randrange(0, 2),
+                                   'val': rng.choice(['none', 'none', 'zero', 'empty',
+                                                      'emptylist', 'false'])})
         a = pargen.abs_eval(desc)
         offset = 100
         has_catch = False
@@ -205,14 +211,18 @@ def gen(rng, tier, index):
     if not has_pf:
         for k in sorted({0, rng.randrange(0, nout + 1)}):
             cases.append(dict(base, mode='iter', k=k, epochs=1))
+        # the counters are read while the iterator is still suspended
+        cases.append(dict(base, mode='iter', k=rng.randrange(0, nout + 1), epochs=1,
+                          hold=True))
         if a.indexable and a.elems is not None:
             for i in range(len(a.elems)):
                 cases.append(dict(base, mode='index', i=i))
     return cases
 
 
-def observe(ds, case, ctx, use_sim):
-    """-> (observation, sim failure)"""
+def observe(ds, case, ctx, use_sim, held=None):
+    """-> (observation, sim failure).  With case['hold'] a partially consumed
+    iterator is left suspended (appended to `held`) instead of being closed."""
     obs = {'len': None, 'epochs': []}
     try:
         obs['len'] = len(ds)
@@ -238,7 +248,10 @@ def observe(ds, case, ctx, use_sim):
                 k = 0
                 while True:
                     if case['k'] is not None and k == case['k']:
-                        it.close()
+                        if case.get('hold') and held is not None:
+                            held.append(it)
+                        else:
+                            it.close()
                         rec[0] = 'stopped'
                         break
                     out.append(W.norm(next(it)))
@@ -303,14 +316,15 @@ def run(case):
                 'ProfilingDataset(pipeline) raised %r' % (e,))
             wrapped = None
         if wrapped is not None:
-            obsB, failB = observe(wrapped, case, ctxB, use_sim)
+            heldB, heldC = [], []
+            obsB, failB = observe(wrapped, case, ctxB, use_sim, heldB)
             logB = list(ctxB.log)
             after = structure(orig)
             # 2b. the original pipeline must behave as if an ordinary copy() of
             # it had been used instead of the wrapper (hidden shared state, e.g.
             # a per-epoch permutation buffer, shows in its next iteration)
             same_after = None
-            if case['mode'] == 'iter' and any(
+            if case['mode'] == 'iter' and not case.get('hold') and any(
                     s_['op'] in ('reshuffle', 'local_shuffle', 'shuffle') for s_ in desc['stages']):
                 full = dict(case, k=None, epochs=1)
                 obs_o, fo = observe(orig, full, ctxB, use_sim)
@@ -329,7 +343,7 @@ def run(case):
             # 3. reference counter
             ctxC = W.set_ctx(W.Ctx(faults=case['faults']))
             ref = RefProfile(W.build(desc))
-            obsC, failC = observe(ref, case, ctxC, use_sim)
+            obsC, failC = observe(ref, case, ctxC, use_sim, heldC)
             fired.update(ctxB.fired)
             if failA or failB or failC:
                 bad('hang', 'hang:%s' % (failA or failB or failC),
@@ -390,6 +404,10 @@ def run(case):
                                 'map stage %s: %d successful fetches counted, %d function '
                                 'applications completed' % (stage, hc[0] - hc[1], rets.get(stage, 0)))
                             break
+            for it_ in heldB + heldC:
+                it_.close()
+            if case.get('hold'):
+                probes['counters_read_while_iterator_suspended'] = 1
         W.set_ctx(None)
     ops = {s['op'] for s in desc['stages']}
     if ops & {'concat', 'zip'}:
